@@ -23,6 +23,19 @@ KINDS_DIRECT = ["fn", "ptrfun", "fobj", "fobjc", "lam", "lammut"]
 MQS = ["n", "c", "v", "cv"]
 KINDS_MEM = ["mem:%s:%s" % (o, q) for o in "oc" for q in MQS]
 ROUTES = ["slot", "connect", "sigconn", "accum"]
+# a slot *object* as the argument: `sigc::slot<FR(FP...)> so = <lambda>;` then `so` / `std::as_const(so)` / `std::move(so)`
+SLOT_FORMS = ["l", "c", "r"]
+KINDS_SLOTOBJ = ["slotobj:%s" % f for f in SLOT_FORMS]
+# the connect entry points of signal.h: {signal, trackable_signal} x {plain, ::accumulated<Acc>} x {connect, connect_first}
+# x {const slot_type&, slot_type&&} — route token `ep:<sig|tsig>:<plain|acc>:<connect|first>:<c|r|any>`; `c` / `r` select
+# that overload by hand (through a pointer to member of exactly that type), `any` is the plain call expression.
+EP_CLASSES = ["sig", "tsig"]
+EP_ACCS = ["plain", "acc"]
+EP_FNS = ["connect", "first"]
+EP_OVERLOADS = ["c", "r"]
+EP_FAMILIES = ["ep:%s:%s:%s" % (c, a, f) for c in EP_CLASSES for a in EP_ACCS for f in EP_FNS]
+ENTRY_POINTS = ["%s:%s" % (fam, o) for fam in EP_FAMILIES for o in EP_OVERLOADS]      # the sixteen declared members
+ENTRY_CALLS = ["%s:any" % fam for fam in EP_FAMILIES]                                 # the eight call expressions
 ALL_PARAMS = ["%s:%s" % (b, s) for b in BASES for s in SHAPES]
 SIG_RETS = ["void"] + ["%s:v" % b for b in BASES]
 FN_RETS = ["void"] + ["%s:%s" % (b, s) for b in BASES for s in "vlc"]
@@ -102,6 +115,7 @@ def cpp(p):
     ps = ", ".join(cpp_type(t) for t in p.fpar)
     fr = cpp_type(p.fret)
     decl = []
+    pre = ""
     k = p.kind
     if k in ("fn", "ptrfun"):
         decl.append("%s f(%s);" % (fr, ps))
@@ -118,6 +132,14 @@ def cpp(p):
         decl.append("extern C o; extern const C co;")
         obj = "o" if o == "o" else "co"
         fun = "sigc::mem_fun(%s, &C::m)" % obj
+    elif k.startswith("slotobj:"):
+        # the argument is an object of another (or the same) slot type; it is created from a lambda of literally its
+        # own signature (always well-formed).  A slot's result is `void` or an object type (`slot::operator()` of an
+        # empty slot returns `T_return()`).
+        if p.adaptor != "none" or p.route == "sigconn" or not (p.fret == "void" or p.fret.endswith(":v")):
+            raise ValueError("slotobj: no adaptor, no signal_connect, value or void result")
+        pre = "sigc::slot<%s(%s)> so = [](%s) -> %s %s; " % (fr, ps, ps, fr, _body(p.fret))
+        fun = {"l": "so", "c": "std::as_const(so)", "r": "std::move(so)"}[k.split(":")[1]]
     else:
         raise ValueError(k)
     ad = p.adaptor.split(":")
@@ -145,9 +167,22 @@ def cpp(p):
             stmt = "sigc::signal<%s> sg; sigc::signal_connect(sg, %s, &C::m);" % (sg, obj)
         else:
             raise ValueError("sigconn needs fn or mem")
+    elif p.route.startswith("ep:"):
+        _, c, a, f, o = p.route.split(":")
+        if c not in EP_CLASSES or a not in EP_ACCS or f not in EP_FNS or o not in EP_OVERLOADS + ["any"]:
+            raise ValueError(p.route)
+        ty = "sigc::%s<%s>%s" % ("signal" if c == "sig" else "trackable_signal", sg,
+                                 "::accumulated<tp::Acc>" if a == "acc" else "")
+        member = "connect" if f == "connect" else "connect_first"
+        if o == "any":
+            stmt = "%s sg; sg.%s(%s);" % (ty, member, fun)
+        else:
+            par = "const S::slot_type&" if o == "c" else "S::slot_type&&"
+            stmt = ("using S = %s; S sg; (sg.*static_cast<sigc::connection (S::*)(%s)>(&S::%s))(%s);"
+                    % (ty, par, member, fun))
     else:
         raise ValueError(p.route)
-    return decl, stmt
+    return decl, pre + stmt
 
 
 def tu(probes, prelude="types_prelude.h"):
@@ -288,6 +323,11 @@ def statement_category(p):
         return "unclassified"
     if k.startswith("mem:") and k.split(":")[2] in ("v", "cv"):
         return "unclassified"                           # volatile methods: not named by the statement
+    if (p.route.startswith("ep:") and p.route.endswith(":r") and k.startswith("slotobj:") and k != "slotobj:r"
+            and tuple(p.sig) == tuple(p.fpar) and p.sret == p.fret):
+        # the `slot_type&&` overload, selected by hand, given an lvalue of the signal's *own* slot type: an rvalue
+        # reference does not bind it — a matter of value categories, not of the typing the statement is about
+        return "unclassified"
     if p.route == "sigconn":
         # signal_connect() deduces R(A...) from the signal and from the pointer: it is only *applicable* to an
         # identical signature; with conversions the statement's "accepted" clause is about slot / connect().
